@@ -104,6 +104,12 @@ theorem keys (hash : Hash) (bs : Bytes) (m : Msg) (h : decodeMsg hash bs = some 
       · cases hd
   · cases h
 
+/-- non-vacuity of `keys`: some byte string decodes to a message with a block and a request -/
+example : ((encodeMsg { requests := [{ id := [0, 1, 2, 3, 4, 5, 6, 7, 8, 9, 10, 11, 12, 13, 14, 15], type := .cancel }],
+                        blocks := [{ cid := [1, 0x55, 0, 3, 0x61, 0x62, 0x63], data := [0x61, 0x62, 0x63] }] }).bind
+    (fun bs => (decodeMsg (fun code _ data => if code = 0 then some data else none) bs).map
+      (fun m => (m.blocks.length, m.requests.length)))) = some (1, 1) := by decide +kernel
+
 /-- the same for every message of a stream -/
 theorem keys_stream (hash : Hash) : ∀ (fuel : Nat) (bs : Bytes) (m : Msg),
     m ∈ (decodeStreamFuel hash fuel bs).1 →
